@@ -9,7 +9,20 @@ func init() {
 func VP_C02_bytes() {
 	L := vpParam("L")
 	text := vpBytes("t", L)
-	toks, cut := vpRefTokenize(text)
+	if vpParam("ALPHA") == 1 {
+		// literal-adjacent alphabet: longer texts at the same cost
+		for _, c := range text {
+			vpAssume(c == '-' || c == '0' || c == 'x' || c == '1' || c == ' ' || c == '.')
+		}
+	}
+	toks, cut, invalid := vpRefTokenize2(text)
+	if invalid {
+		// a numeric literal immediately followed by an identifier character is a syntax error
+		_, err := ParseSourceCode(text)
+		vpAssert("C02/bytes/literal-followed-by-identifier-is-rejected", err != nil)
+		vpReach("C02/bytes/invalid")
+		return
+	}
 	if cut {
 		vpReach("C02/bytes/cut")
 		return // token extents not fixed by the statement (malformed literals, escapes)
